@@ -1,4 +1,4 @@
-use std::collections::{HashMap, VecDeque};
+use std::collections::{HashMap, HashSet, VecDeque};
 use std::env;
 use std::path::{Path, PathBuf};
 use std::str::FromStr;
@@ -141,7 +141,12 @@ pub fn collect_sources<FS: FileSystem>(
 
     let mut files = VecDeque::new();
     files.push_back(root_file);
+    // a file can be reached along several paths, or include itself
+    let mut visited = HashSet::new();
     while let Some(file_id) = files.pop_front() {
+        if !visited.insert(file_id) {
+            continue;
+        }
         let parse = db.parse(file_id);
 
         let file_path = fs.path_for_file(&file_id);
